@@ -4,8 +4,8 @@ import json, os
 V = os.path.dirname(os.path.dirname(os.path.abspath(__file__)))
 TECH = "contract-based deductive verification: CBMC 6.11 code contracts (goto-instrument --dfcc, loop contracts), SAT back end"
 CHECKS = {
- "C01": ("proof for the data path: field decoding (all 2^64 entries), sector walk (loop contract + read/visitor monitor), volume window, and the type / list / dump renderings", "name lookup and mount (std::map, unique_ptr) are outside the verified set (DESIGN.md C01)"),
- "C02": ("proof for field decoding, sign extension, the info line, the .inf line, the catalogue header (title, cycle, boot option, total sectors) and the ordering key of cat", "std::sort itself, cat column layout, show-titles outside the verified set (DESIGN.md C02)"),
+ "C01": ("proof for the data path: field decoding (all 2^64 entries), sector walk (loop contract + read/visitor monitor), volume window, the type / list / dump renderings, and the path to the file: parse_filename, the catalogue fragment search, has_name (an equivalence) and body_command (that volume's catalogue, that volume's data region)", "StorageConfiguration::mount and std::find_if inside one fragment are outside the verified set (DESIGN.md C01)"),
+ "C02": ("proof for field decoding, sign extension, the info line, the .inf line, the catalogue header (title, cycle, boot option, total sectors), the title-and-cycle field and the ordering key of cat", "std::sort itself, cat column layout, show-titles outside the verified set (DESIGN.md C02)"),
  "C03": ("proof: table lemma, line lemmas against the doc-derived monitor, framing lemma over an unbounded ghost file", "stdio model, token oracle from the pinned golden map, files <= 16 MiB"),
  "C04": ("proof: FileView position formula per (take, leave) geometry, byte offset of container sectors, view construction of .ssd/.sdd/.dsd/.ddd/.mmb, one drive per view, dump-sector argument check and address", "geometry *selection* plumbing (filter_formats, min_element) outside the verified set"),
  "C05": ("proof for the bit level (bit order, stride/offset addressing, copy_hfe for HFE v1 and v3 opcodes with the decoding state carried across side blocks, MFM byte), track-list completeness, track length rounding and both flux adapters' address lookup; the end-to-end 'same sectors as the .ssd' clause is undecided", "the rest of read_all_sectors and compute_geometry outside; the width of a SKIPBITS operand is taken from the code (DESIGN.md C05)"),
@@ -13,15 +13,15 @@ CHECKS = {
  "C07": ("proof of function-level safety for the extracted parsers on arbitrary bytes, bounded allocation, termination of the HxC/MMB/track loops, exceptions by value, no exception escaping SurfaceSelector::parse, FileView::read_block on unformatted views (reduced scope, see DESIGN.md C07)", "whole-program clause (exit status, signals) is outside any contract"),
  "C08": ("proof: safety obligations of every basic/ function for arbitrary bytes, exit status in {0,1}, non-zero => diagnostic", "libc modelled (stdio, getopt, strtol, strcmp); <= 64 argv words"),
  "C09": ("proof: framing automaton, no-invention precondition on decode_line, token rejection", "stated allowances (empty file, trailing bytes after LE marker, 0D FF xx)"),
- "C10": ("proof: same geometry hints with and without .gz; gzip format only; under the zlib.h contract of inflate no byte lost or duplicated, normal exit only at Z_STREAM_END, every other outcome an exception by value, both inflate loops terminate (decreases clauses over the zlib model); DecompressedFile::read returns exactly the bytes that exist", "container choice in make_image_file outside the verified set; zlib itself assumed"),
+ "C10": ("proof: same geometry hints with and without .gz; gzip format only; under the zlib.h contract of inflate no byte lost or duplicated, normal exit only at Z_STREAM_END, every other outcome an exception by value, both inflate loops terminate (decreases clauses over the zlib model); DecompressedFile::read and OsFile::read return exactly the bytes that exist; ends_with / remove_suffix act on the end of the name", "container choice in make_image_file outside the verified set; zlib itself assumed"),
  "C11": ("proof for bbcbasic_to_text under the strict write-failure model; dfs: main tail (flush + test of std::cout) and the --help path, type body, write_span of extract-unused, the body-file and .inf write paths of extract-files", "other dfs commands rely on the main-tail check; -D dump contract assumed"),
  "C12": ("proof of path confinement for extract-files and extract-unused; input files (OsFile, gz input) are opened read-only, with an inventory pre-check that these are all the places dfs opens a file", "that no write call is reachable on an input stream is a fact about library calls, outside contracts; the inventory is a static scan, not a proof"),
  "C13": ("proof for the HDFS/Watford probes, the probe order of probe_format / smells_like_acorn_dfs with the variant's sector count, the geometry decisions of probe_geometry (large enough, other side, preference), CatalogFragment::valid (header checks and entry loop) and what the OpusDiscCatalogue constructor takes from sector 16", "the decision structure of smells_like_opus_ddos and the entry loop of catalogue validity are unconstrained models; candidate-list plumbing outside"),
- "C14": ("proof for free (used/free arithmetic), extract-unused (span loop + write_span), Catalog::map_sectors, and the gap bookkeeping of space (initial gap, per-entry gap, maybe_gap)", "the ordering loops of space and SectorMap (std::map) outside the verified set"),
- "C15": ("proof for the wildcard -> ERE translation under stated POSIX axioms, the dir/name split of parse_filename, case-insensitive comparison and CatalogEntry::has_name", "regex engine assumed; find_if plumbing and the drive prefix outside"),
- "C16": ("proof for drive-number arithmetic, check_sequence_fits, StorageConfiguration::connect_drives (both policies, unbounded occupancy), ViewFile::connect_drives, one step of main's option loop and the option table", "mount and the MMB history clause outside"),
- "C17": ("proof for Volume::Access::read_block, the sector walk, FileView take-windows, Opus volume extents (disjoint, ordered, inside the disc) and the access window each Volume is constructed with", "the std::sort of the Opus volumes outside"),
- "C19": ("proof: every basic/ harness and every extracted dfs function containing an assert, in both assert configurations against the same contracts", "build_mapping with its own asserts on (memory); functions outside the verified set"),
+ "C14": ("proof for free (used/free arithmetic), extract-unused (span loop to its end + write_span), get_sector_map, Volume / Catalog / OpusDiscCatalogue map_sectors, and the gap bookkeeping of space (initial gap, per-entry gap, maybe_gap)", "the ordering loops of space and SectorMap (std::map) outside the verified set"),
+ "C15": ("proof for the wildcard -> ERE translation under stated POSIX axioms, parse_filename (defaults, :drive. prefix, dir/name split), VolumeSelector assignment and default prefixes, case-insensitive comparison, CatalogEntry::has_name and the catalogue fragment search", "regex engine assumed; std::find_if plumbing and VolumeSelector::parse beyond the drive number outside"),
+ "C16": ("proof for drive-number arithmetic, check_sequence_fits, StorageConfiguration::connect_drives (both policies, unbounded occupancy), ViewFile::connect_drives, one step of main's option loop and the option table, decimal drive numbers, and the range of drives --show-config lists", "mount, the text of a --show-config line and the MMB history clause outside"),
+ "C17": ("proof for Volume::Access::read_block, the sector walk, FileView take-windows, Opus volume extents (disjoint, ordered, inside the disc) the access window each Volume is constructed with (both creation sites) and the view of each MMB slot", "the std::sort of the Opus volumes outside"),
+ "C19": ("proof: every basic/ harness and every extracted dfs function containing an assert, in both assert configurations against the same contracts; plus a static scan (not a proof) of every assert argument and NDEBUG conditional elsewhere, which makes the check undecided when one may change state", "build_mapping with its own asserts on (memory); functions outside the verified set are covered by the scan only"),
 }
 NA = {
  "C18": "relational two-run property about iostream formatting inside functions that cannot be extracted; the extractor drops `if (verbose)` blocks by rule, so the verified text cannot speak about them (DESIGN.md C18)",
